@@ -182,6 +182,27 @@ def struct_faults(msg0, J):
             setattr(f[j][0], f[j][1], getattr(f[i][0], f[i][1]))
             J.count("struct:dup-uuid")
             emit(m, "dup-uuid %s#%d <- %s#%d" % (f[j][2], j, f[i][2], i))
+    # 1b. three node positions of one kind sharing one UUID: the second
+    # duplicate meets whatever the first one left behind (at most 120 per file)
+    import itertools
+
+    by_kind = {}
+    for idx, (_o, _f, desc) in enumerate(uuid_fields(msg0)):
+        by_kind.setdefault(desc, []).append(idx)
+    emitted = 0
+    for desc, idxs in sorted(by_kind.items()):
+        for i, j, k in itertools.combinations(idxs, 3):
+            for src in (i, k):
+                if emitted >= 120:
+                    break
+                m = fresh()
+                f = uuid_fields(m)
+                for dst in (i, j, k):
+                    if dst != src:
+                        setattr(f[dst][0], f[dst][1], getattr(f[src][0], f[src][1]))
+                J.count("struct:dup-uuid-thrice")
+                emitted += 1
+                emit(m, "dup-uuid thrice %s#%d,#%d,#%d <- #%d" % (desc, i, j, k, src))
     # 2. UUID fields of wrong length (node ids and references)
     n_slots = len(c09_refs.slots(msg0))
     for i in range(n_nodes + n_slots):
